@@ -304,3 +304,100 @@ class ValidateTraitInteger(FastValidator):
     def covers(self, cx, ov, info):
         return [("accepts", lambda r, s: r != NULL), ("rejects-with-TraitError", lambda r, s: z3.And(r == NULL, s.exc == EXC["TraitError"])),
                 ("propagates-the-conversion-error", lambda r, s: z3.And(r == NULL, s.exc != EXC["TraitError"]))]
+
+
+def conversion_clauses(info, ret, st, T):
+    """the single conversion call type(value) and what happens to its outcome"""
+    value = info["value"]
+    calls = [r for r in st.trace if r[0] == "call"]
+    out = [("post:at-most-one-conversion-call", z3.BoolVal(len(calls) <= 1))]
+    if calls:
+        c = calls[0]
+        out.append(("post:conversion-is-type(value)", z3.And(c[1] == T, A.tuple_len(c[2]) == 1, A.tuple_item(c[2], z3.IntVal(0)) == value)))
+        res = st.ghost.get("last_call_result")
+        out.append(("post:stores-the-conversion-result", z3.Implies(ret != NULL, ret == res if res is not None else z3.BoolVal(False))))
+    return out
+
+
+@register
+class ValidateTraitCastType(FastValidator):
+    """CInt / CStr / CFloat ...: a value of exactly the declared type is stored as is, anything else is passed through the
+    type's constructor; a failing conversion is a TraitError."""
+    qualname = "validate_trait_cast_type"
+
+    def wf(self, tinfo, trait, obj, value):
+        return A.tuple_len(tinfo) == 2
+
+    def spec(self, info, ret, st):
+        tinfo, value = info["tinfo"], info["value"]
+        T = A.tuple_item(tinfo, z3.IntVal(1))
+        exact = A.type_of(value) == T
+        calls = [r for r in st.trace if r[0] == "call"]
+        return conversion_clauses(info, ret, st, T) + [
+            ("post:value-of-exactly-the-type-stored-as-is", z3.Implies(exact, z3.And(ret == value, z3.BoolVal(not calls)))),
+            ("post:anything-else-is-converted", z3.Implies(z3.Not(exact), z3.BoolVal(len(calls) == 1))),
+            ("post:failed-conversion-is-TraitError", z3.Implies(ret == NULL, st.exc == EXC["TraitError"]))]
+
+
+@register
+class ValidateTraitCoerceType(FastValidator):
+    """descriptor (kind, T, A1..Ak, None, C1..Cm): an instance of T or of an 'as is' type Ai is stored unchanged; otherwise an
+    instance of a 'coercible' type Cj is stored as T(value); anything else is a TraitError.  Both scans by loop invariant."""
+    qualname = "validate_trait_coerce_type"
+    assumptions = FastValidator.assumptions + ("loop invariants over the descriptor scan (any number of alternative types)",)
+
+    def wf(self, tinfo, trait, obj, value):
+        return A.tuple_len(tinfo) >= 2
+
+    def configure(self, cx, ex, ov):
+        FastValidator.configure(self, cx, ex, ov)
+        value = z3.Const("value", Obj)
+        tinfo_of = lambda st: st.env["type_info"]
+        inst = lambda st, j: A.subtype(A.type_of(value), A.tuple_item(tinfo_of(st), j))
+        j = z3.Int("j!co")
+
+        def inv1(ex2, st, entry):
+            i, n, ti = st.env["i"], st.env["n"], tinfo_of(st)
+            return [("index-in-range", z3.And(2 <= i, z3.Or(i <= n, n < 2), n == A.tuple_len(ti))),
+                    ("no-as-is-type-matched-and-no-separator-so-far", z3.ForAll([j], z3.Implies(z3.And(2 <= j, j < i), z3.And(
+                        A.tuple_item(ti, j) != A.NONE, z3.Not(inst(st, j)))))),
+                    ("no-error-pending", st.exc == entry.exc), ("references-untouched", st.own == entry.own)]
+
+        def inv2(ex2, st, entry):
+            i, n, ti = st.env["i"], st.env["n"], tinfo_of(st)
+            i0 = entry.env["i"]          # index after the separator (or past the end)
+            return [("index-in-range", z3.And(i0 <= i, z3.Or(i <= n, i == i0))),
+                    ("no-coercible-type-matched-so-far", z3.ForAll([j], z3.Implies(z3.And(i0 <= j, j < i), z3.Not(inst(st, j))))),
+                    ("no-error-pending", st.exc == entry.exc), ("references-untouched", st.own == entry.own)]
+
+        def on_loop(ex2, s, st):
+            first = s["inner"][0].get("kind") == "BinaryOperator"
+            if first:
+                r = ex2.invariant_loop(s, st, {"i": INT, "type2": Obj}, inv1, heap=False, name="as-is-types",
+                                       variant=lambda e3, s3: s3.env["n"] - s3.env["i"])
+                return [(kd, p, s2.gset("sep", s2.env["i"])) for (kd, p, s2) in r]
+            return ex2.invariant_loop(s, st, {"i": INT, "type2": Obj}, inv2, heap=False, name="coercible-types",
+                                      variant=lambda e3, s3: s3.env["n"] - s3.env["i"])
+        cx.on_loop = on_loop
+
+    def spec(self, info, ret, st):
+        tinfo, value = info["tinfo"], info["value"]
+        n = A.tuple_len(tinfo)
+        T = A.tuple_item(tinfo, z3.IntVal(1))
+        inst = lambda j: A.subtype(A.type_of(value), A.tuple_item(tinfo, j))
+        j, k = z3.Ints("j!sp k!sp")
+        # k: position of the separator None (first None at an index >= 2), or n
+        sep = z3.Function("separator_index", Obj, INT)(tinfo)
+        sep_def = z3.And(2 <= sep, z3.Or(sep <= n, n < 2), z3.ForAll([j], z3.Implies(z3.And(2 <= j, j < sep), A.tuple_item(tinfo, j) != A.NONE)),
+                         z3.Implies(sep < n, A.tuple_item(tinfo, sep) == A.NONE))
+        as_is = z3.Or(inst(z3.IntVal(1)), z3.Exists([j], z3.And(2 <= j, j < sep, j < n, inst(j))))
+        coercible = z3.Exists([j], z3.And(sep < j, j < n, inst(j)))
+        calls = [r for r in st.trace if r[0] == "call"]
+        return conversion_clauses(info, ret, st, T) + [
+            ("post:instance-of-the-type-or-an-as-is-type-stored-unchanged", z3.Implies(z3.And(sep_def, as_is), z3.And(ret == value, z3.BoolVal(not calls)))),
+            ("post:instance-of-a-coercible-type-is-converted", z3.Implies(z3.And(sep_def, z3.Not(as_is), coercible), z3.BoolVal(len(calls) == 1))),
+            ("post:anything-else-is-TraitError", z3.Implies(z3.And(sep_def, z3.Not(as_is), z3.Not(coercible)),
+                                                            z3.And(ret == NULL, st.exc == EXC["TraitError"], z3.BoolVal(not calls))))]
+
+    def covers(self, cx, ov, info):
+        return FastValidator.covers(self, cx, ov, info) + [("converts", lambda r, s: z3.BoolVal(any(x[0] == "call" for x in s.trace)))]
